@@ -29,7 +29,7 @@ func TestVerifC05Sockets(t *testing.T) {
 	dynamicHostResolver = &DynamicHostResolver{interval: time.Hour, stop: 1, hostIPs: make(map[string]*AddressWithCallback)}
 	nseq := ev.Pick(400, 6000)
 	ntrial := ev.Pick(25, 400)
-	var firstMember int64
+	var firstMember, floods int64
 	workers := 8
 	var stats c19Stats
 	var wg sync.WaitGroup
@@ -81,6 +81,7 @@ func TestVerifC05Sockets(t *testing.T) {
 						default:
 						}
 						w.fx.inject("127.1.0.1", 5060, w.request("OPTIONS", "fill", fmt.Sprintf("fill-%d-%d", trial, k), "a", ""))
+						atomic.AddInt64(&floods, 1)
 					}
 				}()
 				time.Sleep(time.Duration(100+rnd.Intn(400)) * time.Microsecond)
@@ -97,6 +98,7 @@ func TestVerifC05Sockets(t *testing.T) {
 				}
 				close(stop)
 				fl.Wait()
+				atomic.AddInt64(&stats.steps, 1)
 				if ok {
 					got := w.sinks.wait(id, nprobe, 2*time.Second)
 					atomic.AddInt64(&firstMember, 1)
@@ -118,13 +120,17 @@ func TestVerifC05Sockets(t *testing.T) {
 			}
 		}(wi)
 	}
-	wg.Wait()
+	if !vfAwait(run, &wg, &stats.steps, 60, "the rotation stopped moving: neither a membership change nor a dispatch completed for 60 s") {
+		vfFinish(t, run, 0)
+		return
+	}
 	if e := setupErr.Load(); e != nil {
 		run.Violation("harness: socket fixture not created", map[string]any{"error": e})
 	}
 	run.Observe("membership_changes_applied", stats.steps)
 	run.Observe("dispatch_probes_counted_at_sockets", stats.dispatchProbes)
 	run.Observe("first_member_registered_under_traffic_trials", firstMember)
+	run.Observe("filler_requests_injected_meanwhile", floods)
 	if stats.dispatchProbes < int64(nseq) {
 		run.Violation("observed-nothing", map[string]any{"dispatch_probes": stats.dispatchProbes})
 	}
